@@ -312,6 +312,11 @@ func scaleDeclared(d, r int) []uint32 {
 
 type endoRow struct {
 	Parses, Golden, Timestamp, Late, Prov, Cert, Sig, Sevsnp, Tdx, Tdxmeas bool
+	Bundle                                                                 string
+}
+
+func pemCert(der []byte) []byte {
+	return pem.EncodeToMemory(&pem.Block{Type: "CERTIFICATE", Bytes: der})
 }
 
 func ucs2le(s string) []byte {
@@ -562,7 +567,9 @@ func RunC07(run *vk.Run) {
 	gspec := rp.GoldenSpec{Snp: map[uint32][]byte{1: rp.Meas("p1"), 2: rp.Meas("p2")}, Svsm: rp.Meas("svsm"),
 		Tdx:    []*epb.VMTdx_Measurement{{RamGib: 4, EarlyAccept: true, Mrtd: rp.Meas("mrtd4")}, {RamGib: 8, Mrtd: rp.Meas("mrtd8")}},
 		Digest: rp.Meas("digest"), Timestamp: ts, ClSpec: 1234, Commit: []byte("0123456789abcdef0123"), Cert: m.SignCert.Raw, Svn: 2}
-	genuineDoc := gspec.Proto()
+	gspecBundle := gspec
+	gspecBundle.CaBundle = append(pemCert(m.SignCert.Raw), pemCert(m.ForeignCert.Raw)...)
+	genuineDoc := gspecBundle.Proto()
 	genuine := rp.Endorse(genuineDoc, m.S)
 	genuineBytes, _ := proto.Marshal(genuine)
 
@@ -609,6 +616,17 @@ func RunC07(run *vk.Run) {
 				}
 				if !r.Sevsnp {
 					g.Snp, g.Svsm = nil, nil
+				}
+				two := append(pemCert(m.SignCert.Raw), pemCert(m.ForeignCert.Raw)...)
+				switch r.Bundle {
+				case "two":
+					g.CaBundle = two
+				case "trailing":
+					g.CaBundle = append(append([]byte{}, two...), '\n')
+				case "three":
+					g.CaBundle = append(append([]byte{}, two...), pemCert(m.RootCert.Raw)...)
+				case "garbage":
+					g.CaBundle = []byte("-----BEGIN CERTIFICATE-----\nno end")
 				}
 				if !r.Tdx {
 					g.Tdx = nil
@@ -754,7 +772,8 @@ func RunC07(run *vk.Run) {
 		var c struct {
 			Row struct {
 				L    int
-				Term bool `json:"term"`
+				Term bool   `json:"term"`
+				Fill string `json:"fill"`
 			} `json:"row"`
 			Res string `json:"res"`
 		}
@@ -777,6 +796,11 @@ func RunC07(run *vk.Run) {
 			loc[n-1], loc[n-2] = 0, 0
 		} else if n > 0 {
 			loc[n-1] = 1
+		}
+		if c.Row.Fill == "nul" {
+			for i := 16; i < n; i++ {
+				loc[i] = 0
+			}
 		}
 		exp := "decode=" + c.Res
 		if c.Row.Term && n < 18 {
